@@ -127,6 +127,22 @@ def gen_line(rng, tag, tier, widen=False, raman=False, src_is_trx=False, allow_r
         line.append(gen_fiber(rng, f'{tag} f0', widen, max_km=120.0))
         line.append(gen_raman(rng, f'{tag} r'))
         n = rng.choice([0, 1])
+    if not raman and not allow_raman_crash and rng.random() < 0.15:
+        # a short amplifier-to-amplifier span made of 2-3 fibres spliced by Fused, total loss below the usual paddings,
+        # with a user att_in on the first fibre that differs from the last fibre's (first > 0 / last 0 and the reverse)
+        a_first, a_last = rng.choice([(1.5, 0), (0.5, 0), (1.0, 2.0), (2.0, 0.5), (0, 1.0), (0.7, 0)])
+        nf = rng.choice([2, 2, 3])
+        for j in range(nf):
+            f = {"uid": f'{tag} s{j}', "type": "Fiber", "type_variety": "SSMF",
+                 "params": {"length": rng.choice([1.0, 2.0, 3.0, 5.0]), "length_units": "km", "loss_coef": 0.2,
+                            "con_in": rng.choice([None, 0, 0.2]), "con_out": rng.choice([None, 0, 0.2])}}
+            att = a_first if j == 0 else (a_last if j == nf - 1 else rng.choice([0, 0.3]))
+            if att:
+                f["params"]["att_in"] = att
+            line.append(f)
+            if j < nf - 1:
+                line.append({"uid": f'{tag} su{j}', "type": "Fused", "params": {"loss": rng.choice([0, 0.3, 0.5])}})
+        n = rng.choice([0, 1, 2, 3])
     prev = line[-1]['type'] if line else None
     # a Fiber spliced (through Fused) to a RamanFiber makes add_fiber_padding ask for the Raman gain before it is
     # estimated (TypeError, finding raman-gain-before-estimate): only the dedicated crash cases produce that
@@ -139,6 +155,8 @@ def gen_line(rng, tag, tier, widen=False, raman=False, src_is_trx=False, allow_r
             w['Fiber'] = 1          # Raman -> Fiber gets an inline amplifier: fine, but keep it rare
         if raman_run and prev == 'Fused':
             w['Fiber'] = 0
+        if i == 0 and line and line[-1]['uid'].startswith(f'{tag} s'):
+            w['Fused'] = 0          # keep the spliced span closed by an amplifier
         kinds = list(w)
         typ = rng.choices(kinds, [w[k] for k in kinds])[0]
         uid = f'{tag} {i}'
